@@ -54,6 +54,39 @@ class Facts:
             self._view_fns[name] = v
         return v
 
+    def dissolved(self, name):
+        """True when the function's body is spliced into the view of every function that mentions it (a private, non-recursive helper,
+        or a closure handed to a desugared combinator / pipeline): it is then judged inside its callers, in their context, and is not a
+        subject of its own. Public, recursive, kept and macro-generated functions are never dissolved."""
+        import os
+        if os.environ.get("VERIF_NO_INLINE"):
+            return False
+        if not hasattr(self, "_dissolved"):
+            self._dissolved = {}
+            self._callers = None
+        if name in self._dissolved:
+            return self._dissolved[name]
+        self._dissolved[name] = False  # cycle guard
+        import inline
+        import callgraph
+        raw = self.raw["fns"].get(name)
+        res = False
+        if raw is not None and not raw.get("def_exp") and (raw.get("kind") == "closure" or inline.inlinable(name, raw, self._views.recursive)):
+            if self._callers is None:
+                self._callers = {}
+                for a, ms in callgraph.build(self).items():
+                    for m in ms:
+                        self._callers.setdefault(m, set()).add(a)
+            callers = [c for c in self._callers.get(name, ()) if c != name]
+            if callers:
+                res = all(name in self.view(c).inlined_names() for c in callers)
+        self._dissolved[name] = res
+        return res
+
+    def subjects(self, names):
+        """views of the functions among `names` that are judged in their own right (see `dissolved`)"""
+        return [self.view(n) for n in names if n in self.fns and not self.dissolved(n)]
+
     # -- lookups ---------------------------------------------------------
     def fn(self, name):
         return self.fns.get(name)
